@@ -122,6 +122,24 @@ Definition range_events (item : Z -> res (list ev)) (chars : option (dtype * lis
   | None => do xs <- mapM item (range a b); Ok (ESA :: concat xs ++ [EEA])
   end.
 
+(* contents_[tag] *)
+Definition pick_nth {A} (f : content -> res A) : list content -> nat -> res A :=
+  fix go (l : list content) (k : nat) {struct l} : res A :=
+    match l, k with
+    | x :: _, O => f x
+    | _ :: xs, S k' => go xs k'
+    | [], _ => Err EOob
+    end.
+
+(* for (j < cols) { builder.field(keys[j]); contents_[j].getitem_at_nowrap(i).tojson_part(builder, true); } *)
+Definition fields_ev (f : content -> res (list ev)) : list content -> list bytes -> res (list ev) :=
+  fix go (l : list content) (kl : list bytes) {struct l} : res (list ev) :=
+    match l, kl with
+    | [], _ => Ok []
+    | x :: xs, k :: kl' => do e <- f x; do r <- go xs kl'; Ok (EKey k :: e ++ r)
+    | _ :: _, [] => Err EValue
+    end.
+
 Definition tuple_keys (n : nat) : list bytes := map dec (iota (Z.of_nat n)).
 
 (* [item o p c i] = events of  c.getitem_at_nowrap(i).tojson_part(builder, true),
@@ -155,21 +173,10 @@ Fixpoint item (o : jopts) (p : option akind) (c : content) (i : Z) {struct c} : 
   | Unmasked c' => item o None c' i
   | Union _ tags ix cs =>
       do t <- get tags i; do j <- get ix i;
-      if t <? 0 then Err EOob else
-      (fix pick (l : list content) (k : nat) {struct l} : res (list ev) :=
-         match l, k with
-         | x :: _, O => item o None x j
-         | _ :: xs, S k' => pick xs k'
-         | [], _ => Err EOob
-         end) cs (Z.to_nat t)
+      if t <? 0 then Err EOob else pick_nth (fun x => item o None x j) cs (Z.to_nat t)
   | Record cs ks _ =>
       let keys := match ks with Some k => k | None => tuple_keys (length cs) end in
-      do body <- (fix fields (l : list content) (kl : list bytes) {struct l} : res (list ev) :=
-                    match l, kl with
-                    | [], _ => Ok []
-                    | x :: xs, k :: kl' => do e <- item o None x i; do r <- fields xs kl'; Ok (EKey k :: e ++ r)
-                    | _ :: _, [] => Err EValue
-                    end) cs keys;
+      do body <- fields_ev (fun x => item o None x i) cs keys;
       Ok (ESO :: body ++ [EEO])
   end.
 
@@ -431,57 +438,66 @@ Definition real_of (neg : bool) (m e : Z) : option rnum :=
      else if m mod d =? 0 then Some (RZ (sgn (m / d))) else Some RFrac).
 
 (* Reader::ParseNumber followed by Handler::Int/Uint/Int64/Uint64/Double
-   (Handler::Uint64 casts to int64_t) *)
-Definition lex_number (bs : list Z) : pres :=
-  let (neg, b1) := match bs with c :: r => if c =? 45 then (true, r) else (false, bs) | [] => (false, bs) end in
+   (Handler::Uint64 casts to int64_t), in the four stages of the reader *)
+Definition strip_minus (bs : list Z) : bool * list Z :=
+  match bs with c :: r => if c =? 45 then (true, r) else (false, bs) | [] => (false, bs) end.
+
+(* integer part: "0" or [1-9][0-9]* *)
+Definition lex_ipart (b1 : list Z) : option (Z * list Z) :=
   match b1 with
-  | [] => PFail []
+  | [] => None
   | c :: r1 =>
-      let ipart :=
-        if c =? 48 then Some (0, r1)
-        else if (49 <=? c) && (c <=? 57) then (let '(v, _, r) := read_digits b1 0 0 in Some (v, r))
-        else None in
-      match ipart with
-      | None => PFail b1
-      | Some (iv, b2) =>
-          (* fraction *)
-          let frac :=
-            match b2 with
-            | d :: r2 =>
-                if d =? 46 then
-                  (let '(fv, fc, r3) := read_digits r2 0 0 in
-                   if fc =? 0 then inr r2 else inl (true, iv * 10 ^ fc + fv, fc, r3))
-                else inl (false, iv, 0, b2)
-            | [] => inl (false, iv, 0, b2)
-            end in
-          match frac with
+      if c =? 48 then Some (0, r1)
+      else if (49 <=? c) && (c <=? 57) then (let '(v, _, r) := read_digits b1 0 0 in Some (v, r))
+      else None
+  end.
+
+(* optional fraction: (is-double, mantissa, number of fraction digits, rest) or the stop position *)
+Definition lex_frac (iv : Z) (b2 : list Z) : (bool * Z * Z * list Z) + list Z :=
+  match b2 with
+  | d :: r2 =>
+      if d =? 46 then
+        (let '(fv, fc, r3) := read_digits r2 0 0 in
+         if fc =? 0 then inr r2 else inl (true, iv * 10 ^ fc + fv, fc, r3))
+      else inl (false, iv, 0, b2)
+  | [] => inl (false, iv, 0, b2)
+  end.
+
+(* optional exponent: (is-double, exponent, rest) or the stop position *)
+Definition lex_exp (b3 : list Z) : (bool * Z * list Z) + list Z :=
+  match b3 with
+  | x :: r3 =>
+      if (x =? 101) || (x =? 69) then
+        (let (eneg, r4) := match r3 with
+                            | s :: r => if s =? 43 then (false, r) else if s =? 45 then (true, r) else (false, r3)
+                            | [] => (false, r3)
+                            end in
+         let '(xv, xc, r5) := read_digits r4 0 0 in
+         if xc =? 0 then inr r4 else inl (true, (if eneg then - xv else xv), r5))
+      else inl (false, 0, b3)
+  | [] => inl (false, 0, b3)
+  end.
+
+Definition classify (neg isd : bool) (m fc ex : Z) (b4 : list Z) : pres :=
+  let double (mm ee : Z) :=
+    match real_of neg mm ee with Some r => POk [EReal r] b4 | None => PFail b4 end in
+  if isd then double m (ex - fc)
+  else if neg then
+    (if m <=? 9223372036854775808 then POk [EInt (- m)] b4 else double m 0)
+  else
+    (if m <? 18446744073709551616 then POk [EInt (wrap64 m)] b4 else double m 0).
+
+Definition lex_number (bs : list Z) : pres :=
+  let (neg, b1) := strip_minus bs in
+  match lex_ipart b1 with
+  | None => PFail b1
+  | Some (iv, b2) =>
+      match lex_frac iv b2 with
+      | inr stop => PFail stop
+      | inl (isd1, m, fc, b3) =>
+          match lex_exp b3 with
           | inr stop => PFail stop
-          | inl (isd1, m, fc, b3) =>
-              (* exponent *)
-              let expo :=
-                match b3 with
-                | x :: r3 =>
-                    if (x =? 101) || (x =? 69) then
-                      (let (eneg, r4) := match r3 with
-                                          | s :: r => if s =? 43 then (false, r) else if s =? 45 then (true, r) else (false, r3)
-                                          | [] => (false, r3)
-                                          end in
-                       let '(xv, xc, r5) := read_digits r4 0 0 in
-                       if xc =? 0 then inr r4 else inl (true, (if eneg then - xv else xv), r5))
-                    else inl (false, 0, b3)
-                | [] => inl (false, 0, b3)
-                end in
-              match expo with
-              | inr stop => PFail stop
-              | inl (isd2, ex, b4) =>
-                  let double (mm ee : Z) :=
-                    match real_of neg mm ee with Some r => POk [EReal r] b4 | None => PFail b4 end in
-                  if isd1 || isd2 then double m (ex - fc)
-                  else if neg then
-                    (if m <=? 9223372036854775808 then POk [EInt (- m)] b4 else double m 0)
-                  else
-                    (if m <? 18446744073709551616 then POk [EInt (wrap64 m)] b4 else double m 0)
-              end
+          | inl (isd2, ex, b4) => classify neg (isd1 || isd2) m fc ex b4
           end
       end
   end.
@@ -497,6 +513,9 @@ Fixpoint lit (expect : list Z) (e : ev) (bs : list Z) : pres :=
   end.
 
 (* ------------------------------------------------------------------ parser (recursive descent, fuel) *)
+Definition pmap (g : list ev -> list ev) (x : pres) : pres :=
+  match x with POk es r => POk (g es) r | _ => x end.
+
 Fixpoint parse_value (fuel : nat) (bs : list Z) {struct fuel} : pres :=
   match fuel with
   | O => PFuel
@@ -512,21 +531,13 @@ Fixpoint parse_value (fuel : nat) (bs : list Z) {struct fuel} : pres :=
           else if c =? 91 then
             (let r1 := skip_ws r in
              match r1 with
-             | d :: r2 => if d =? 93 then POk [ESA; EEA] r2
-                          else match parse_elems f r1 with
-                               | POk es r3 => POk (ESA :: es) r3
-                               | x => x
-                               end
-             | [] => match parse_elems f r1 with POk es r3 => POk (ESA :: es) r3 | x => x end
+             | d :: r2 => if d =? 93 then POk [ESA; EEA] r2 else pmap (cons ESA) (parse_elems f r1)
+             | [] => PFail []
              end)
           else if c =? 123 then
             (let r1 := skip_ws r in
              match r1 with
-             | d :: r2 => if d =? 125 then POk [ESO; EEO] r2
-                          else match parse_members f r1 with
-                               | POk es r3 => POk (ESO :: es) r3
-                               | x => x
-                               end
+             | d :: r2 => if d =? 125 then POk [ESO; EEO] r2 else pmap (cons ESO) (parse_members f r1)
              | [] => PFail []
              end)
           else lex_number bs
@@ -543,7 +554,7 @@ with parse_elems (fuel : nat) (bs : list Z) {struct fuel} : pres :=
            match r1 with
            | c :: r2 =>
                if c =? 44 then
-                 match parse_elems f (skip_ws r2) with POk es r3 => POk (e ++ es) r3 | x => x end
+                 pmap (app e) (parse_elems f (skip_ws r2))
                else if c =? 93 then POk (e ++ [EEA]) r2
                else PFail r1
            | [] => PFail []
@@ -572,10 +583,7 @@ with parse_members (fuel : nat) (bs : list Z) {struct fuel} : pres :=
                             match r4 with
                             | x :: r5 =>
                                 if x =? 44 then
-                                  match parse_members f (skip_ws r5) with
-                                  | POk es r6 => POk (EKey k :: e ++ es) r6
-                                  | y => y
-                                  end
+                                  pmap (fun es => EKey k :: e ++ es) (parse_members f (skip_ws r5))
                                 else if x =? 125 then POk (EKey k :: e ++ [EEO]) r5
                                 else PFail r4
                             | [] => PFail []
@@ -592,7 +600,9 @@ with parse_members (fuel : nat) (bs : list Z) {struct fuel} : pres :=
   end.
 
 (* Reader::Parse<kParseStopWhenDoneFlag>: SkipWs, one value, stop *)
-Definition parse1 (bs : list Z) : pres := parse_value (S (length bs)) (skip_ws bs).
+(* two units of fuel per nesting level / element, each of which takes at least one byte *)
+Definition fuel_for (bs : list Z) : nat := 2 * length bs + 2.
+Definition parse1 (bs : list Z) : pres := parse_value (fuel_for bs) (skip_ws bs).
 
 Definition parse (bs : list Z) : res (list ev * list Z) :=
   match parse1 bs with
@@ -624,26 +634,26 @@ Definition handler (o : jopts) (e : ev) : ev :=
 Inductive jerr := JIncomplete | JInvalid | JFuel.
 Inductive jres := JDocs (docs : list (list ev)) | JErr (e : jerr).
 
-(* handler.moved(): some handler method was called during this Parse.  A failing
-   Parse calls none exactly when the document starts with a scalar token. *)
-Definition starts_container (bs : list Z) : bool :=
-  match skip_ws bs with c :: _ => (c =? 91) || (c =? 123) | [] => false end.
-
+(* while (stream.Peek() != 0) { fully_parsed = reader.Parse<kParseStopWhenDoneFlag>(stream, handler); ... }
+   A failed Parse ends the loop quietly only when no event fired and the reader reports
+   kParseErrorDocumentEmpty, i.e. nothing but whitespace was left; every other failure throws:
+   "incomplete JSON object" when the stream is at its end, "JSON File error at char" otherwise. *)
 Fixpoint do_parse_loop (fuel : nat) (o : jopts) (bs : list Z) (acc : list (list ev)) : jres :=
   match fuel with
   | O => JErr JFuel
   | S f =>
       match bs with
-      | [] => JDocs (rev acc)                                   (* while (stream.Peek() != 0) *)
+      | [] => JDocs (rev acc)
       | _ =>
-          match parse1 bs with
-          | POk evs rest => do_parse_loop f o rest (map (handler o) evs :: acc)      (* number++ *)
-          | PFail rest =>
-              if starts_container bs then
-                match rest with [] => JErr JIncomplete | _ => JErr JInvalid end
-              else
-                match rest with [] => JDocs (rev acc) | _ => JErr JInvalid end
-          | PFuel => JErr JFuel
+          match skip_ws bs with
+          | [] => JDocs (rev acc)                                  (* kParseErrorDocumentEmpty: break *)
+          | _ =>
+              match parse1 bs with
+              | POk evs rest => do_parse_loop f o rest (map (handler o) evs :: acc)      (* number++ *)
+              | PFail [] => JErr JIncomplete
+              | PFail _ => JErr JInvalid
+              | PFuel => JErr JFuel
+              end
           end
       end
   end.
